@@ -17,7 +17,8 @@ RULE = ('model-first generation: draw a logic, draw a total reference model M fo
         'condition, 1-3 constants, values for 3 atoms, F/1, G/2 and, in the many-valued logics, = and E! as ordinary '
         'predicates; classical: identity an equivalence respected by every extension), draw ~8 sentences of depth <= 3 '
         'from the fragment (uninterpreted sentences get drawn values), evaluate them in M with vf/refsem.py and form an '
-        'argument whose premises are designated at w0 and whose conclusion is not; x {group optim} x {rank optim} x '
+        'argument whose premises are designated at w0 and whose conclusion is not (second stream: a standard valid form '
+        'weakened in one or two places, with a countermodel found among drawn models); x {group optim} x {rank optim} x '
         'tie-break order seed. Oracle: M is a countermodel by construction, so the tableau must not report valid; and, '
         'stepping through the proof, every rule application must leave a branch that M still satisfies (soundness '
         'lemma; witnesses may denote any element / world). Every case is non-trivial (a countermodel exists); distinct '
@@ -84,6 +85,51 @@ def run_case(case, M, acc=None):
     return out, info
 
 
+def _weaken(data, s):
+    "One semantic-weakening edit somewhere in a sentence (the result is usually no longer entailed)."
+    subs = list(A.subsentences(s))
+    t = subs[data.draw(st.integers(0, len(subs) - 1))]
+    k = t[0]
+    if k == 'Q':
+        new = ('Q', 'Existential' if t[1] == 'Universal' else 'Universal', t[2], t[3])
+    elif k == 'O' and t[1] in A.MODAL_OPS:
+        new = ('O', 'Possibility' if t[1] == 'Necessity' else 'Necessity', t[2])
+    elif k == 'O' and A.OPS[t[1]] == 2:
+        choice = data.draw(st.integers(0, 2))
+        if choice == 0:
+            new = ('O', t[1], t[2][::-1])
+        elif choice == 1:
+            others = [o for o in gen.BIN_OPS if o != t[1]]
+            new = ('O', others[data.draw(st.integers(0, len(others) - 1))], t[2])
+        else:
+            new = t[2][data.draw(st.integers(0, 1))]
+            if A.free_variables(new) - A.free_variables(t):
+                new = t
+    elif k == 'O':
+        new = t[2][0]
+    else:
+        new = A.neg(t)
+    return gen._replace_first(s, t, new)
+
+
+def near_valid_argument(data, logic):
+    "A standard valid form (examples + first-order / modal / identity schemata), weakened in one or two places."
+    from . import c11
+    sch = [(t, p, c) for t, p, c in c11.schemata() if all(c11.fragment_ok(logic, x) for x in (*p, c))]
+    title, prem, con = sch[data.draw(st.integers(0, len(sch) - 1))]
+    prem = list(prem)
+    for _ in range(data.draw(st.integers(1, 2))):
+        which = data.draw(st.integers(0, len(prem) + 1))
+        if which < len(prem):
+            if data.draw(st.integers(0, 3)) == 0:
+                prem.pop(which)
+            else:
+                prem[which] = _weaken(data, prem[which])
+        else:
+            con = _weaken(data, con)
+    return prem, con
+
+
 def shards(tier, seed_):
     n = 16 if tier == 'quick' else 64
     ex = 800 if tier == 'quick' else 4000
@@ -99,8 +145,41 @@ def run_shard(shard, acc):
     @given(st.data())
     def body(data):
         logic = data.draw(gen.logic_name())
-        M = data.draw(gen.model(logic))
         V = R.values(logic)
+        if data.draw(st.integers(0, 3)) == 0:
+            # second stream: a near-miss of a standard valid form; search a countermodel among drawn models
+            prem, con = near_valid_argument(data, logic)
+            M = None
+            for _ in range(12):
+                cand = data.draw(gen.model(logic, natoms=2, preds=((0, 0, 1), (1, 0, 1), (2, 0, 2))))
+                cand.opaque_fill = lambda w, s: V[data.draw(st.integers(0, len(V) - 1))]
+                cand.default = V[0]
+                try:
+                    ok = cand.is_countermodel(prem, con, 0) and set().union(*(A.constants(x) for x in (*prem, con))) <= set(cand.consts)
+                except (KeyError, ValueError):
+                    ok = False
+                if ok and (not R.is_classical(logic) or cand.classical_ok()):
+                    M = cand
+                    break
+            if M is None:
+                acc.count('near-valid: no countermodel among 12 drawn models')
+                return
+            case = prover.mk_case(logic, prem, con, group=data.draw(st.booleans()), rank=data.draw(st.booleans()),
+                                  order=data.draw(st.integers(0, 15)), max_steps=MAX_STEPS)
+            case['model'] = M.to_json()
+            res, info = run_case(case, M)
+            if info.get('raised'):
+                acc.count('build-raised (see C09)')
+                return
+            if info['outcome'] == 'limited':
+                acc.inconclusive += 1
+            acc.case((logic, case['premises'], case['conclusion'], case['group'], case['rank'], case['order']),
+                     nontrivial=True, classes=(info['outcome'], 'stream:near-valid'),
+                     sample=prover.case_str(case) + f' => {info["outcome"]}; countermodel {M.describe()}')
+            for fp, d in res:
+                acc.finding(fp, case, d)
+            return
+        M = data.draw(gen.model(logic))
         M.opaque_fill = lambda w, s: V[data.draw(st.integers(0, len(V) - 1))]
         ident_heavy = data.draw(st.integers(0, 4)) == 0
         prof = profile_for(logic, M.consts, ident_heavy)
